@@ -37,7 +37,9 @@ RULE = ("per reader (imsc, scc, stl, srt, vtt): valid inputs (bundled corpus fil
         "tokens, random characters / bytes); every returned document goes through generate_isd_sequence, snapshots at five times with "
         "and without cache, the LCD filter under two configurations and every writer under every configuration. evaluations = inputs; "
         "non-trivial = mutated input for which the reader returned a document holding at least one paragraph; distinct by input hash. "
-        "thorough tier: additionally one atheris (libFuzzer) campaign per reader with the same classifier inside the target.")
+        "thorough tier: additionally one atheris (libFuzzer) campaign per reader (VT_ATHERIS_SECONDS, default 300 s each) with the same "
+        "classifier inside the target; its executions are counted as evaluations and the inputs for which the reader returned a document "
+        "as non-trivial (libFuzzer inputs are distinct up to its own deduplication; not re-hashed).")
 ASSUMPTIONS = [
   "allowed reader outcomes: a document; None after a CRITICAL log record; xml.etree.ElementTree.ParseError, ValueError (incl. "
   "UnicodeDecodeError), struct.error. Everything else is an internal error, bucketed by (exception type, innermost ttconv frame)",
@@ -338,7 +340,7 @@ def downstream(reader, data, doc, res, prefix):
       stage("lcd+vtt-writer", lambda d2=d2: vtt_writer.from_model(d2, VTT_CFGS[0]))
 
 
-def run_case(case, res, limit):
+def run_case(case, res, limit, light=False):
   reader, data = case["reader"], case["data"]
   prefix = reader + ":"
   old = signal.signal(signal.SIGALRM, _alarm)
@@ -378,6 +380,20 @@ def run_case(case, res, limit):
       res.nontrivial = True
     if nel > 2000:
       res.label(reader + ":large-document-not-processed")
+      return
+    if light:
+      # fuzzing campaigns: snapshots only (the writers are exercised by the Hypothesis parts)
+      try:
+        sig = ISD.significant_times(doc)
+        for t in list(sig)[:3]:
+          ISD.from_model(doc, t, sig)
+      except Timeout:
+        raise
+      except Exception as e:  # pylint: disable=broad-except
+        bucket, harness = crash_bucket(e)
+        if harness:
+          raise
+        res.fail("%sdownstream:snapshot:%s" % (prefix, bucket), "%s: %s" % (type(e).__name__, str(e)[:200]))
       return
     downstream(reader, data, doc, res, prefix)
   finally:
@@ -470,6 +486,8 @@ CATALOG = [
   ("scc", b"Scenarist_SCC V1.0\n\n00:00:00:00\t\t9420\n"), ("scc", b"Scenarist_SCC V1.0\n\n99:99:99:99\t9420 942f\n"),
   ("scc", b"Scenarist_SCC V1.0\n\n00:00:00:00\tc1c2 c3c4\n\n00:00:01:00\t942f\n"), ("scc", b"Scenarist_SCC V1.0\n\n00:00:00:00\t9425 94ad 9421 9421 9421 c1c2 94ad\n"),
   ("scc", b"Scenarist_SCC V1.0\n\n00:00:00;00\t9429 9429 97a1 c1c2 942c\n"),
+  ("scc", b"Scenarist_SCC V1.0\n\n00:00:00:00\t9429 9429 9421 9421 c1c2\n"), ("scc", b"Scenarist_SCC V1.0\n\n00:00:00:00\t9420 9420 1220 1220\n"),
+  ("srt", b"1\n00:00:01,000 --> 00:00:02,000\n<font color>x</font>\n"), ("srt", b"1\n00:00:01,000 --> 00:00:02,000\n<font color=>x</font><b =>y\n"),
   ("stl", b""), ("stl", b"x" * 100), ("stl", _gsi()), ("stl", _gsi() + _tti()), ("stl", _gsi(tnb=b"00000") + _tti()), ("stl", _gsi() + _tti()[:60]),
   ("stl", _gsi(dfc=b"STL99.01") + _tti()), ("stl", _gsi(cct=b"99") + _tti()), ("stl", _gsi(dsc=b"9") + _tti()), ("stl", _gsi(tnb=b"     ") + _tti()),
   ("stl", _gsi() + _tti(cs=3)), ("stl", _gsi() + _tti(cs=2) + _tti(sn=2, cs=3)), ("stl", _gsi() + _tti(ebn=0x01)), ("stl", _gsi() + _tti(ebn=0xFE) + _tti(cf=1)),
@@ -508,4 +526,62 @@ PARTS = {
           required_labels=(r + ":document", "mutated", "verbatim"))
   for r in READERS
 }
+def atheris_chunks(tier, seed):
+  """one coverage-guided campaign per reader, thorough tier only (atheris is installed into .deps by tools/setup.sh)"""
+  if tier != "thorough":
+    return []
+  secs = int(os.environ.get("VT_ATHERIS_SECONDS", "300"))
+  return [(r, seed, secs) for r in READERS]
+
+
+def atheris_campaign(chunk):
+  import base64
+  import json
+  import shutil
+  import subprocess
+  import sys
+  import tempfile
+  from vt.run import Acc, Res
+  reader, seed, secs = chunk
+  acc = Acc()
+  home = os.environ.get("VT_HOME") or os.path.dirname(os.path.dirname(os.path.dirname(os.path.abspath(__file__))))
+  try:
+    sys.path.insert(0, os.path.join(home, ".deps"))
+    import atheris  # noqa: F401  pylint: disable=unused-import
+  except Exception:  # pylint: disable=broad-except
+    acc.labels["atheris:not-installed"] += 1
+    return acc
+  tmp = tempfile.mkdtemp(prefix="vt-atheris-")
+  try:
+    corpus = os.path.join(tmp, "corpus")
+    os.makedirs(corpus)
+    seeds = list(CORPUS[reader][:20]) + [d for r, d in CATALOG if r == reader]
+    for i, d in enumerate(seeds):
+      with open(os.path.join(corpus, "seed%03d" % i), "wb") as f:
+        f.write(d)
+    out = os.path.join(tmp, "out.json")
+    cmd = [sys.executable, "-m", "vt.fuzz.atheris_target", reader, out, corpus, "-max_total_time=%d" % secs, "-max_len=8192",
+           "-seed=%d" % (seed + 1), "-timeout=60", "-rss_limit_mb=4096", "-verbosity=0", "-print_final_stats=0"]
+    subprocess.run(cmd, cwd=home, stdout=subprocess.DEVNULL, stderr=subprocess.DEVNULL, timeout=secs + 300, check=False)
+    try:
+      with open(out) as f:
+        result = json.load(f)
+    except Exception:  # pylint: disable=broad-except
+      acc.labels["atheris:no-result:" + reader] += 1
+      return acc
+    acc.evaluations += result["executions"]
+    acc.labels["atheris:executions:" + reader] += result["executions"]
+    acc.nt_counted += result.get("documents", 0)      # inputs for which the reader returned a document
+    acc.labels["atheris:documents:" + reader] += result.get("documents", 0)
+    for bucket, v in result["buckets"].items():
+      res = Res()
+      res.fail(bucket, v["detail"])
+      acc.add({"reader": reader, "data": base64.b64decode(v["data"]), "origin": "atheris", "mutations": ["atheris"]}, res)
+      acc.evaluations -= 1
+    return acc
+  finally:
+    shutil.rmtree(tmp, ignore_errors=True)
+
+
+PARTS["atheris"] = Part("atheris", check, chunks=atheris_chunks, fast_check=atheris_campaign)
 PARTS["catalog"] = Part("catalog", check, chunks=catalog_chunks, cases=catalog_cases, exhaustive=(True, True))
